@@ -534,7 +534,11 @@ def run_check(spec, tier='quick', seed=0, jobs=None, keep=False, verbose=True):
                 if kind == 'obs':
                     exp = x['obs']
                     got = r.get('obs') or []
-                    if r.get('assume_violated') or r.get('panic') or r.get('failures') or got != exp:
+                    # assertions outside this check's tag filter belong to another property's check: the engine skips
+                    # them, so a native failure of one of them is not a disagreement between engine and real code
+                    tf = getattr(spec, 'TAG_FILTER', None)
+                    nfail = [f for f in (r.get('failures') or []) if not tf or any(f.startswith(p) for p in tf)]
+                    if r.get('assume_violated') or r.get('panic') or nfail or got != exp:
                         mismatch.append({'task': x['task'].label, 'vector': x['vector'], 'expected': exp, 'native': r})
                     else:
                         validated += 1
